@@ -67,37 +67,33 @@ theorem b58 : ((58 : UInt8) == 43) = false ∧ ((58 : UInt8) == 45) = false := b
 theorem b42 : ((42 : UInt8) == 43) = false ∧ ((42 : UInt8) == 45) = false ∧ ((42 : UInt8) == 58) = false
     ∧ ((42 : UInt8) == 36) = false := by decide
 
-theorem parseInt64_fmtInt (i : Int) (hlo : minInt64 ≤ i) (hhi : i ≤ maxInt64) : parseInt64 (fmtInt i) = some i := by
+theorem parseIntDec_fmtInt (i : Int) : parseIntDec (fmtInt i) = some i := by
   cases i with
   | ofNat n =>
     have hd := allDigits_natDigits n
+    have hv := digitsVal_natDigits n
     cases hn : natDigits n with
     | nil => rw [hn] at hd; simp [allDigits] at hd
     | cons c r =>
       have hc : isDigit c = true := by rw [hn] at hd; simp [allDigits] at hd; exact hd.1
       have h43 : c ≠ 43 := by intro h; subst h; simp [isDigit] at hc
       have h45 : c ≠ 45 := by intro h; subst h; simp [isDigit] at hc
-      have hv := digitsVal_natDigits n
       rw [hn] at hd hv
-      unfold parseInt64 fmtInt
+      unfold parseIntDec fmtInt
       simp only [hn]
       split
-      · rename_i heq; simp at heq; exact absurd heq.1 h43
       · rename_i heq; simp at heq; exact absurd heq.1 h45
-      · simp only [hd, if_true, hv, Bool.false_eq_true, if_false]
-        simp only [Int.ofNat_eq_natCast] at hlo hhi ⊢
-        simp [hlo, hhi]
+      · rename_i heq; simp at heq; exact absurd heq.1 h43
+      · simp [hd, hv]
   | negSucc n =>
     have hd := allDigits_natDigits (n + 1)
     have hv := digitsVal_natDigits (n + 1)
-    unfold parseInt64 fmtInt
+    unfold parseIntDec fmtInt
     simp only [hd, if_true, hv]
-    have : (-((n + 1 : Nat) : Int)) = Int.negSucc n := by omega
-    rw [this]
-    simp [hlo, hhi]
+    congr 1
 
 /-- an integer reply followed by any residue parses to its integer -/
-theorem parseOne_intReply (f : Nat) (i : Int) (rest : Bytes) (hlo : minInt64 ≤ i) (hhi : i ≤ maxInt64) :
+theorem parseOne_intReply (f : Nat) (i : Int) (rest : Bytes) :
     parseOne (f + 1) (intReply i ++ rest) = some (.int i, rest) := by
   have hclean : cleanLine (fmtInt i) = true := by
     cases i with
@@ -109,7 +105,7 @@ theorem parseOne_intReply (f : Nat) (i : Int) (rest : Bytes) (hlo : minInt64 ≤
   have e : intReply i ++ rest = 58 :: (fmtInt i ++ 13 :: 10 :: rest) := by simp [intReply, crlf]
   rw [e]
   simp only [parseOne, splitCrlf_clean _ _ hclean, hclean, Bool.not_true, Bool.false_eq_true, if_false,
-    b58.1, b58.2, parseInt64_fmtInt i hlo hhi]
+    b58.1, b58.2, parseIntDec_fmtInt i]
   simp
 
 /-- a simple string whose text has no CR or LF parses to that text -/
